@@ -328,6 +328,16 @@ impl KeyKeeperSharedState {
         }
     }
 
+    /// Get the guid and the value of the current key in one read, so that both belong to the same key
+    /// even while the key is being replaced or cleared.
+    pub async fn get_current_key_guid_and_value(&self) -> Result<Option<(String, String)>> {
+        match self.get_key().await {
+            Ok(Some(k)) => Ok(Some((k.guid, k.key))),
+            Ok(None) => Ok(None),
+            Err(e) => Err(e),
+        }
+    }
+
     pub async fn get_current_key_guid(&self) -> Result<Option<String>> {
         match self.get_key().await {
             Ok(Some(k)) => Ok(Some(k.guid)),
